@@ -876,6 +876,10 @@ class Exec:
         if isinstance(tgt, ast.Attribute):
             for s, base in self.ev(tgt.value, st):
                 if isinstance(base, Raise): yield s, ("raise", base.exc); continue
+                if isinstance(base, Sym) and base.ty.kind == "abs" and ("absset:%s.%s" % (base.ty.args[0], tgt.attr)) in self.contracts:
+                    for s2, r in self.contracts["absset:%s.%s" % (base.ty.args[0], tgt.attr)](self, s, base, v):
+                        yield s2, (("raise", r.exc) if isinstance(r, Raise) else ("next",))
+                    continue
                 if not isinstance(base, Ref): raise Unsupported("attr store on %r" % (base,))
                 cls = S.find_class(base.cls)
                 if cls is not None:
